@@ -258,7 +258,12 @@ def denJson (ad : String) (sp : Spec) (name name2 : Option String) : Json :=
       match mkCall o.caps name with
       | .ok m =>
         match denCall o ms m with
-        | some f => (match f (.int 7) with | .ok v => obsVal v | .error e => obsExc e)
+        | some f =>
+          (match f (.int 7), f (.int 8), f (.int 9) with
+           | .ok a, .ok b, .ok c => obsVal (.list [a, b, c])
+           | .error e, _, _ => obsExc e
+           | _, .error e, _ => obsExc e
+           | _, _, .error e => obsExc e)
         | none => Json.null
       | .error _ => Json.null
     | "Run" =>
